@@ -29,7 +29,7 @@ RULE = (
     "synthetic readers; layer F: 12 corpus layouts (1-2 corpora x 1-2 files, 1..11 docs, with/without action-and-meta-data lines, ASCII and "
     "2/3/4-byte UTF-8) x clients 1..5 x worker splits of 4 layouts x bulk {1,2,3,5,1000} x batch {1x,2x,3x} x percentage {100,75,50,34,1} and "
     "conflict modes; layer E: 12 layouts x clients {1,2,3,5} x 4 worker splits x bulk {1,3,1000} end to end through the real worker stack "
-    "(AsyncIoAdapter .. BulkIndex runner .. client) against the simulated _bulk endpoint; layer O: files of 49999..200000 lines (offset tables; also sizes where a client group starts exactly on a table entry) with multi-byte content, one of them a new revision of a file whose offset table already existed, x clients {2,3} x two bulk sizes. "
+    "(AsyncIoAdapter .. BulkIndex runner .. client) against the simulated _bulk endpoint, also with the bulk task inside a parallel element beside another task (allocations from the real Allocator: client id != index in task, element larger than the task); layer O: files of 49999..200000 lines (offset tables; also sizes where a client group starts exactly on a table entry) with multi-byte content, one of them a new revision of a file whose offset table already existed, x clients {2,3} x two bulk sizes. "
     "non-trivial = more than one client or more than one bulk; distinct = the configuration"
 )
 ASSUMPTIONS = [
@@ -385,7 +385,7 @@ def check_files(layout_i, clients, hname, bulk, batch_mult, pct, conflicts, res,
 # ------------------------------------------------------------------------------------------------ layer E (end to end)
 
 
-def check_e2e(layout_i, clients, hname, bulk, res):
+def check_e2e(layout_i, clients, hname, bulk, res, beside=0):
     """the real bulk task through the real worker stack (AsyncIoAdapter, schedule, executor, BulkIndex runner, client) against the
     simulated node: the bodies received by the _bulk endpoint contain every document exactly once"""
     from esrally.driver import driver
@@ -408,11 +408,22 @@ def check_e2e(layout_i, clients, hname, bulk, res):
         n = len([l for l in (entry["body"] or b"").split(b"\n") if l]) // 2
         return {"service_time": 0.0625, "body": {"took": 1, "errors": False, "items": [{"index": {"status": 201}}] * n}}
 
-    for h in driver.calculate_worker_assignments(HOSTS[hname], clients):
+    rows = None
+    if beside:
+        # the bulk task runs inside a parallel element beside another task with `beside` clients: the real Allocator numbers the clients,
+        # so a client's index in the task differs from its id and the element has more clients than the task
+        other = track.Task("other", track.Operation("other-op", "sleep", params={"duration": 1}), clients=beside)
+        rows = driver.Allocator([track.Parallel([other, task])]).allocations
+    for h in driver.calculate_worker_assignments(HOSTS[hname], clients + beside):
         for group in h["workers"]:
             if not group:
                 continue
-            allocs = [(cid, loadgen.allocation(task, cid)) for cid in group]
+            if rows is None:
+                allocs = [(cid, loadgen.allocation(task, cid)) for cid in group]
+            else:
+                allocs = [(g, ta) for g in group for ta in rows[g] if isinstance(ta, driver.TaskAllocation) and ta.task is task]
+                if not allocs:
+                    continue
             r = loadgen.run_worker(allocs, behaviour, track=trk)
             if r.error is not None or r.loop_errors:
                 v = ("e2e-raises", f"clients {group}: {type(r.error).__name__}: {r.error} {r.loop_errors[:1]}")
@@ -445,13 +456,13 @@ def check_e2e(layout_i, clients, hname, bulk, res):
         if missing or dups or extra:
             v = ("e2e-not-exactly-once", f"missing {missing[:6]} duplicated {dups[:6]} unexpected {extra[:6]}")
     res.case(
-        case_repr={"end_to_end": True, "corpora": LAYOUTS[layout_i], "clients": clients, "workers": hname, "bulk": bulk, "bulk_requests": nreq} if res.sample_now(211) else None,
-        nontrivial_key=("E", layout_i, clients, hname, bulk) if clients > 1 or nreq > 1 else None,
-        outcome_key=("E", nreq, v[0] if v else "ok"),
+        case_repr={"end_to_end": True, "corpora": LAYOUTS[layout_i], "clients": clients, "workers": hname, "bulk": bulk, "bulk_requests": nreq, "clients_of_parallel_sibling": beside} if res.sample_now(211) else None,
+        nontrivial_key=("E", layout_i, clients, hname, bulk, beside) if clients > 1 or nreq > 1 else None,
+        outcome_key=("E", nreq, beside, v[0] if v else "ok"),
     )
     if v:
-        res.violation(f"bulk:{v[0]}", f"end-to-end corpora={LAYOUTS[layout_i]} clients={clients} workers={hname} bulk={bulk}: {v[1]}",
-                      {"layer": "E", "layout": layout_i, "clients": clients, "hosts": hname, "bulk": bulk})
+        res.violation(f"bulk:{v[0]}" + (":in-parallel-element" if beside else ""), f"end-to-end corpora={LAYOUTS[layout_i]} clients={clients} workers={hname} bulk={bulk} beside a parallel task with {beside} clients: {v[1]}",
+                      {"layer": "E", "layout": layout_i, "clients": clients, "hosts": hname, "bulk": bulk, "beside": beside})
 
 
 def e2e_cases(tier):
@@ -462,6 +473,10 @@ def e2e_cases(tier):
                     if tier == "quick" and (bulk == 3 and hname in ("2x1",) or clients == 5 and bulk == 1):
                         continue
                     yield (li, clients, hname, bulk)
+                    if bulk == 3 and hname in ("1x1", "1x2") and clients > 1:
+                        yield (li, clients, hname, bulk, None, 1)
+                        if tier == "thorough":
+                            yield (li, clients, hname, bulk, None, 2)
 
 
 def file_cases(tier):
@@ -553,7 +568,7 @@ def _job(arg):
             check_files(*it, res)
     elif kind == "E":
         for it in items:
-            check_e2e(*it, res)
+            check_e2e(*it[:4], res, beside=it[5] if len(it) > 5 else 0)
     else:
         for spec, clients, bulk in items:
             _S["large_spec"] = list(spec)
@@ -590,7 +605,7 @@ def replay(data):
     elif data["layer"] == "P":
         check_percentage(res)
     elif data["layer"] == "E":
-        check_e2e(data["layout"], data["clients"], data["hosts"], data["bulk"], res)
+        check_e2e(data["layout"], data["clients"], data["hosts"], data["bulk"], res, beside=data.get("beside", 0))
     elif data.get("large"):
         spec = tuple(data["large"])
         _S["large_spec"] = list(spec)
